@@ -139,6 +139,7 @@ def check(ctx) -> None:
     r26(ctx)
     r27(ctx)
     r28(ctx)
+    r29(ctx)
 
 
 def r21(ctx, cls) -> None:
@@ -594,3 +595,95 @@ def r28(ctx) -> None:
                        'before/after comparison reads a live message object')
     R.ok(cmp_, cmp_.node, '_compare/_Frozen read only copied sets',
          f'{reads} live flag read(s)')
+
+
+def r29(ctx) -> None:
+    R = ctx.rule('R2.9', 'records of the change log / UID list are dropped '
+                 'only when really empty / absent', 2)
+    # (a) dict: a mod-sequence bucket leaves the log only when its UID set
+    #     became empty
+    m = ctx.proj.module('pymap/backend/dict/mailbox.py')
+    msm = m.classes.get('_ModSequenceMapping')
+    if msm is None:
+        raise AnchorError('_ModSequenceMapping vanished')
+    n = 0
+    for fs in msm.methods.values():
+        for f in fs:
+            cfg = cfg_of(f)
+            for nd in cfg.stmt_nodes():
+                dels = []
+                if isinstance(nd.stmt, ast.Delete):
+                    for t in nd.stmt.targets:
+                        if isinstance(t, ast.Subscript):
+                            dels.append((txt(t.value), txt(t.slice), nd.stmt))
+                for c in nd.calls():
+                    if call_name(c) in ('pop', 'popitem') and isinstance(
+                            c.func, ast.Attribute) and c.args:
+                        dels.append((txt(c.func.value), txt(c.args[0]), c))
+                for mp, key, site in dels:
+                    if mp not in ('data', 'self._updates', 'self._expunges',
+                                  'updates', 'expunges'):
+                        continue
+                    n += 1
+                    ok = False
+                    for t in cfg.nodes:
+                        if t.kind != 'test':
+                            continue
+                        at = guard_atoms(t.stmt.test)
+                        if len(at) != 1 or at[0][1]:
+                            continue
+                        if not cfg.controlled_by(nd, t, 't'):
+                            continue
+                        for _, v in local_assigns(f, at[0][0]):
+                            if isinstance(v, ast.Call) and call_name(v) in (
+                                    'get',) and txt(v.func.value) == mp and \
+                                    v.args and txt(v.args[0]) == key:
+                                ok = True
+                    R.check(ok, f, site, f'{f.qualname}: `{txt(site)[:40]}` '
+                            f'only when the bucket is empty',
+                            f'the bucket {mp}[{key}] is removed from the '
+                            f'change log without testing that its UID set '
+                            f'became empty: one EXPUNGE of several messages '
+                            f'(or the claim_recent batch) is ONE bucket; '
+                            f're-modifying one of its UIDs drops the record '
+                            f'of all the others, and sessions that have not '
+                            f'polled yet never learn of them (stuck '
+                            f'message, no NOOP repairs it)')
+    if n == 0:
+        raise AnchorError('_ModSequenceMapping: no bucket removal found')
+    # (b) maildir housekeeping: a UID record is dropped only when the file is
+    #     ABSENT -- an empty info string ('' = no ":2," suffix) is a live file
+    md = ctx.proj.cls('pymap/backend/maildir/mailbox.py', 'MailboxData')
+    f = md.own_method('cleanup')
+    if f is None:
+        raise AnchorError('maildir cleanup vanished')
+    cfg = cfg_of(f)
+    rem = cfg.find(lambda x: any(call_name(c) == 'remove'
+                                 and 'uidl' in txt(c.func.value)
+                                 for c in x.calls()))
+    if not rem:
+        raise AnchorError('maildir cleanup: uidl.remove() not found')
+    for r in rem:
+        ok = False
+        for t in cfg.nodes:
+            if t.kind != 'test':
+                continue
+            e = t.stmt.test
+            lab = None
+            if isinstance(e, ast.Compare) and len(e.ops) == 1 and isinstance(
+                    e.comparators[0], ast.Constant) and \
+                    e.comparators[0].value is None:
+                lab = 't' if isinstance(e.ops[0], ast.Is) else (
+                    'f' if isinstance(e.ops[0], ast.IsNot) else None)
+            elif isinstance(e, ast.Compare) and len(e.ops) == 1 and \
+                    isinstance(e.ops[0], (ast.NotIn, ast.In)):
+                lab = 't' if isinstance(e.ops[0], ast.NotIn) else 'f'
+            if lab and cfg.controlled_by(r, t, lab):
+                ok = True
+        R.check(ok, f, r.stmt, 'maildir cleanup: a record is removed only '
+                'when its file is absent (`is None` / `not in`)',
+                'the UID record is dropped on a truth test of the info '
+                'string: a file delivered by an MDA into new/ has no '
+                '":2,<flags>" suffix, its info is \'\' (falsy) although the '
+                'file exists — every CHECK reports * n EXPUNGE for a message '
+                'that still exists and reset() re-adds it under a new UID')
